@@ -146,4 +146,50 @@ Section Insert.
     destruct Hx as [->|Hx]; [contradiction|]. eapply IH; eauto.
   Qed.
 
+  (* ------------------------------------------------------------------ zix_btree_split_child *)
+  Lemma leaf_eq_vals : forall a b : node, is_leaf a = is_leaf b ->
+    max_vals L I a = max_vals L I b /\ min_vals L I a = min_vals L I b.
+  Proof. intros a b H. unfold min_vals, max_vals. rewrite H. auto. Qed.
+
+  (* the two halves of a full page *)
+  Lemma split_node_spec : forall h n l m r,
+    kids_ok L I h n -> n_vals n = max_vals L I n ->
+    split_node dflt L I n = (l, m, r) ->
+    elements n = elements l ++ m :: elements r /\ wfn L I h l /\ wfn L I h r /\
+    is_leaf l = is_leaf n /\ is_leaf r = is_leaf n /\
+    n_vals l = max_vals L I n / 2 /\ n_vals r = max_vals L I n - max_vals L I n / 2 - 1 /\
+    In m (vals n).
+  Proof.
+    intros h [vs|vs cs] l m r Hk Hf E; unfold split_node in E; cbv beta iota zeta in E;
+      apply pair_equal_spec in E as [E <-]; apply pair_equal_spec in E as [<- <-];
+      unfold n_vals in *; cbn [max_vals is_leaf vals] in *;
+      (destruct h as [|h]; [contradiction|]).
+    - cbn [kids_ok] in Hk. subst h.
+      rewrite (firstn_all2 (skipn (length vs / 2 + 1) vs)) by (rewrite skipn_length; lia).
+      replace (length vs / 2 + 1) with (S (length vs / 2)) by lia.
+      cbn [elements wfn is_leaf vals]. rewrite skipn_length, firstn_length. unfold minL.
+      repeat split; try lia.
+      + apply firstn_skipn_nth. lia.
+      + apply nth_In. lia.
+    - destruct Hk as (Hh & Hl & Hfa).
+      rewrite (firstn_all2 (skipn (length vs / 2 + 1) vs)) by (rewrite skipn_length; lia).
+      rewrite (firstn_all2 (skipn (length vs / 2 + 1) cs)) by (rewrite skipn_length; lia).
+      replace (length vs / 2 + 1) with (S (length vs / 2)) by lia.
+      set (k := length vs / 2) in *. assert (Hk : k < length vs) by (unfold k; lia).
+      cbn [wfn is_leaf vals]. rewrite !skipn_length, !firstn_length. unfold minI.
+      repeat split; try lia.
+      + rewrite (elements_split _ rank dflt vs cs k) by lia.
+        rewrite (elements_split _ rank dflt (firstn k vs) (firstn (S k) cs) k)
+          by (rewrite !firstn_length; lia).
+        rewrite (post_end _ rank dflt (firstn k vs)) by (rewrite firstn_length; lia). rewrite app_nil_r.
+        unfold pre. rewrite !firstn_firstn.
+        replace (Nat.min k (S k)) with k by lia. replace (Nat.min k k) with k by lia.
+        rewrite nth_firstn_lt by lia.
+        unfold post. rewrite (skipn_nth_cons vs k dflt) by lia.
+        cbn [elements]. rewrite <- app_assoc. reflexivity.
+      + apply Forall_firstn. assumption.
+      + apply Forall_skipn. assumption.
+      + apply nth_In. lia.
+  Qed.
+
 End Insert.
